@@ -829,6 +829,112 @@ func c02(run *ev.Run, tier string) {
 	}
 	run.Set("arch_matrix_cells", archCells)
 	run.Set("documented_goarches", goarches)
+	// part 1b: relation items that reach the configuration through the
+	// environment, with the padding values read from files tend to have (blanks,
+	// a trailing line break): the package carries the item, not the padding
+	{
+		s := base()
+		s.Depends = []string{"${VERIF_DEP_A}", "literal-dep", "${VERIF_DEP_B}"}
+		s.Provides = []string{"${VERIF_PROV}"}
+		s.Conflicts = []string{"literal-foe", "${VERIF_FOE}"}
+		envv := map[string]string{"VERIF_DEP_A": "  libpadded", "VERIF_DEP_B": "libtail \n", "VERIF_PROV": "\tvirt-x\t", "VERIF_FOE": "foe-y\r\n"}
+		want := map[string][]string{"depends": {"libpadded", "literal-dep", "libtail"}, "provides": {"virt-x"}, "conflicts": {"literal-foe", "foe-y"}}
+		for _, f := range formats {
+			run.Case("relations-through-environment|"+f, true)
+			cfg, err := parseYAML(s.YAML(), func(k string) string { return envv[k] })
+			if err != nil {
+				run.Violate("C02/"+f+"/build-error", map[string]any{"case": "relations through the environment", "error": err.Error()})
+				continue
+			}
+			info, err := infoFor(&cfg, f)
+			if err != nil {
+				run.Inconclusive(err.Error())
+				continue
+			}
+			res := packageInfo(f, info)
+			if res.Err != nil || res.Panic != "" {
+				run.Violate("C02/"+f+"/build-error", map[string]any{"case": "relations through the environment", "error": fmt.Sprint(res.Err, ev.Short(res.Panic, 300))})
+				continue
+			}
+			p := dec.Decode(f, res.Bytes, false)
+			if len(p.Errs) > 0 {
+				run.Violate("C02/"+f+"/undecodable", map[string]any{"case": "relations through the environment", "errors": p.Errs})
+				continue
+			}
+			got := map[string][]string{}
+			switch f {
+			case "deb", "ipk":
+				for rel, field := range map[string]string{"depends": "Depends", "provides": "Provides", "conflicts": "Conflicts"} {
+					v, _ := p.MetaGet(field)
+					got[rel] = splitList(v)
+				}
+			case "rpm":
+				for rel, tag := range map[string]int{"depends": dec.RpmTagRequireName, "provides": dec.RpmTagProvideName, "conflicts": dec.RpmTagConflictName} {
+					for _, n := range p.Rpm.Hdr.StrList(tag) {
+						if !strings.HasPrefix(n, "rpmlib(") && n != s.Name && !strings.HasPrefix(n, s.Name+"(") {
+							got[rel] = append(got[rel], n)
+						}
+					}
+				}
+			case "apk":
+				got["depends"], got["provides"] = dec.GetAll(p.Meta, "depend"), dec.GetAll(p.Meta, "provides")
+				got["conflicts"] = want["conflicts"] // no field of its own
+			default:
+				got["depends"], got["provides"], got["conflicts"] = dec.GetAll(p.Meta, "depend"), dec.GetAll(p.Meta, "provides"), dec.GetAll(p.Meta, "conflict")
+			}
+			for rel, w := range want {
+				atomic.AddInt64(&cmps, 1)
+				if strings.Join(got[rel], "|") != strings.Join(w, "|") {
+					run.Violate("C02/"+f+"/relation-from-environment-not-trimmed/"+rel, map[string]any{"got": got[rel], "want": w})
+				}
+			}
+		}
+	}
+
+	// part 1c: an rpm relation the rpm writer refuses (dpkg-only operators), at
+	// every position of every list: the build fails, or the relation is in the
+	// header - it is never left out silently
+	for _, rel := range []string{"depends", "provides", "conflicts", "replaces", "recommends", "suggests"} {
+		for pos := 0; pos < 3; pos++ {
+			for _, bad := range []string{"badrel << 1.0", "badrel >> 2", "badrel == 3"} {
+				items := []string{"ok-a", "ok-b"}
+				items = append(items[:pos], append([]string{bad}, items[pos:]...)...)
+				s := base()
+				switch rel {
+				case "depends":
+					s.Depends = items
+				case "provides":
+					s.Provides = items
+				case "conflicts":
+					s.Conflicts = items
+				case "replaces":
+					s.Replaces = items
+				case "recommends":
+					s.Recommends = items
+				case "suggests":
+					s.Suggests = items
+				}
+				run.Case(fmt.Sprintf("rpm-refused-relation|%s|%d|%s", rel, pos, bad), true)
+				res := buildYAML(s.YAML(), "rpm")
+				if res.Err != nil || res.Panic != "" {
+					continue // loud
+				}
+				p := dec.Decode("rpm", res.Bytes, false)
+				if len(p.Errs) > 0 {
+					run.Violate("C02/rpm/undecodable", map[string]any{"case": "refused relation", "errors": p.Errs})
+					continue
+				}
+				tag := map[string]int{"depends": dec.RpmTagRequireName, "provides": dec.RpmTagProvideName, "conflicts": dec.RpmTagConflictName,
+					"replaces": dec.RpmTagObsoleteName, "recommends": dec.RpmTagRecommendName, "suggests": dec.RpmTagSuggestName}[rel]
+				names := p.Rpm.Hdr.StrList(tag)
+				atomic.AddInt64(&cmps, 1)
+				if indexOf(names, "badrel") < 0 {
+					run.Violate("C02/rpm/relation-dropped-silently/"+rel, map[string]any{"list": items, "position": pos, "names_in_header": names})
+				}
+			}
+		}
+	}
+
 	// part 2: all combinations of optional version components
 	for mask := 0; mask < 32; mask++ {
 		v := verParts{V: "4.5.6"}
@@ -848,12 +954,22 @@ func c02(run *ev.Run, tier string) {
 		if mask&16 != 0 {
 			schema = "none"
 		}
-		for _, f := range formats {
-			s := base()
-			s.Version, s.Epoch, s.Prerelease, s.VersionMetadata, s.Release, s.VersionSchema = v.V, v.Epoch, v.Pre, v.Meta, v.Rel, schema
-			run.Case(fmt.Sprintf("version-combo|%05b|%s", mask, f), mask&14 != 0)
-			if p := buildDecode(s, f, fmt.Sprintf("version mask %05b", mask)); p != nil {
-				checkMeta(metaCmp{run, f, fmt.Sprintf("version mask %05b", mask), &cmps}, s, v, p, expectArch(table, f, "amd64"), nil)
+		// versions that are taken verbatim keep their first character, also when
+		// it is a 'v': under schema none, and when the string is not a semver
+		versions := []string{"4.5.6", "v1.2.3.4"}
+		if schema == "none" {
+			versions = []string{"4.5.6", "v4.5.6", "v2024.10.02"}
+		}
+		for _, ver := range versions {
+			v.V = ver
+			for _, f := range formats {
+				s := base()
+				s.Version, s.Epoch, s.Prerelease, s.VersionMetadata, s.Release, s.VersionSchema = v.V, v.Epoch, v.Pre, v.Meta, v.Rel, schema
+				what := fmt.Sprintf("version %s mask %05b", ver, mask)
+				run.Case(fmt.Sprintf("version-combo|%s|%05b|%s", ver, mask, f), mask&14 != 0)
+				if p := buildDecode(s, f, what); p != nil {
+					checkMeta(metaCmp{run, f, what, &cmps}, s, v, p, expectArch(table, f, "amd64"), nil)
+				}
 			}
 		}
 	}
